@@ -77,6 +77,9 @@ func (rtr *Router) HasRoute(port Port) bool {
 
 // GetRoute returns a TIBCModule for a given module.
 func (rtr *Router) GetRoute(port Port) (TIBCModule, bool) {
+	if m, ok := verifRoute(rtr, port); ok {
+		return m, true
+	}
 	if !rtr.HasRoute(port) {
 		return nil, false
 	}
